@@ -27,7 +27,9 @@ POOL = ["0", "-0", "1", "-1", "1.5", "1e10", "true", "false", '""', '"a"', '"A"'
         '["a"]', '["A"]', "GA", "GB", "{}", "{0}", "{-0}", "{1+1}", "{1 + 1}", '{"a"}', "{'a'}", "createHashMap",
         "(createHashMapFromArray [[1,2],[3,4]])", "(createHashMapFromArray [[3,4],[1,2]])", "(createHashMapFromArray [[1,[2]]])", "HM1",
         "configFile", "configNull", "objNull", "grpNull", "GRP", "west", "east", "sideUnknown", "scriptNull",
-        "missionNamespace", "uiNamespace", "(text \"a\")", "[true]", "[[], []]", "[{0}]", "[{-0}]"]
+        "missionNamespace", "uiNamespace", "(text \"a\")", "[true]", "[[], []]", "[{0}]", "[{-0}]",
+        # code that differs only in the letter case of a variable / operator name
+        "{_a}", "{_A}", "{x = 1}", "{X = 1}", "{private _v = 2}", "{private _V = 2}", "{count [1]}", "{COUNT [1]}", "{[_a]}", "{[_A]}"]
 PRELUDE = 'GA = [1,2]; GB = GA; HM1 = createHashMapFromArray [[1,2],[3,4]]; GRP = createGroup west;'
 CONFIG = "class CfgA { a = 1; };"
 
